@@ -59,6 +59,9 @@ def vec_depth(t: str) -> Tuple[int, str]:
     return d, t
 
 
+COLLIDING = [["jet.pt", "jet_pt", "jet pt", "jet-pt"], ["n-jets", "n jets", "n_jets"], ["a+b", "a_b", "a b"]]
+
+
 def make_case(ctx: Ctx, backend: str, i: int, opts) -> Optional[Dict[str, Any]]:
     s = sch.fixed(backend)
     R = ctx.rng("c03", backend, i)
@@ -75,7 +78,16 @@ def make_case(ctx: Ctx, backend: str, i: int, opts) -> Optional[Dict[str, Any]]:
     cols = []
     for _ in range(ncol):
         r = R.random()
-        if r < 0.35:
+        if r > 0.86:
+            # a conditional whose two arms are both integer / both boolean: "conditionals are floating"
+            if rows == "object":
+                cols.append((R.choice(["(j.nTrk() if j.pt() > 20.0 else 0)", "(j.isGood() if j.pt() > 20.0 else j.hasLead())", "(1 if j.isGood() else 2)", "(j.nTrk() if j.isGood() else j.nTrk() + 1)"]), "scalar", None))
+            else:
+                cols.append(R.choice([(f"(1 if e.{C}('A').Count() > 1 else 2)", "scalar"), (f"e.{C}('A').Select(lambda q: q.nTrk() if q.pt() > 20.0 else 0)", "list"),
+                                      (f"((e.{C}('A').Count() > 1) if e.{C}('B').Count() > 0 else (e.{C}('A').Count() > 2))", "scalar"),
+                                      (f"e.{C}('A').Select(lambda q: q.hits().Select(lambda h: h if h > 2 else 0 - h))", "list2"),
+                                      (f"e.{C}('A').Select(lambda q: q.isGood() if q.pt() > 20.0 else q.hasLead())", "list")]) + (None,))
+        elif r < 0.35:
             # bare declared member: exact type expected
             if rows == "object":
                 m = R.choice(list(EXACT))
@@ -99,7 +111,10 @@ def make_case(ctx: Ctx, backend: str, i: int, opts) -> Optional[Dict[str, Any]]:
         if R.random() < 0.25:
             pool += ODD_NAMES
         names = R.sample(pool, ncol)
-        odd = any(n in ODD_NAMES for n in names)
+        if ncol >= 2 and R.random() < 0.2:
+            # distinct labels that turn into the same C++ identifier once sanitised: each still needs its own storage
+            names[:2] = R.sample(R.choice(COLLIDING), 2)
+        odd = any(n in ODD_NAMES for n in names) or any(n in g for g in COLLIDING for n in names)
     elif form == "bare" or ncol == 1 and form != "tuple1":
         names = ["col1"]
     else:
@@ -170,6 +185,8 @@ def check_book(case: Dict[str, Any], r: Dict[str, Any], refs) -> Optional[str]:
         kinds = set()
         for v in vals:
             kinds |= depth_and_kinds(v)[1]
+        if element_is_conditional(col[0]) and tc != "float":
+            return f"column {br['name']}: the expression is a conditional (floating by the property's wording), booked {br['type']} ({col[0][:80]})"
         floating_ok = bool(re.search(r"\bif\b|\.Min\(|\.Max\(|Min\(|Max\(|\*\*", col[0]))
         if kinds == {"bool"} and tc != "bool" and not floating_ok:
             return f"column {br['name']}: values are booleans, booked {br['type']} ({col[0][:80]})"
@@ -180,6 +197,26 @@ def check_book(case: Dict[str, Any], r: Dict[str, Any], refs) -> Optional[str]:
         if "float" in kinds and tc != "float":
             return f"column {br['name']}: values are floating, booked {br['type']} ({col[0][:80]})"
     return None
+
+
+def element_is_conditional(text: str) -> bool:
+    "the column's element expression (looking through trailing Select(lambda: ...) layers) is `a if c else b`"
+    import ast
+    try:
+        n = ast.parse(text.strip(), mode="eval").body
+    except SyntaxError:
+        return False
+    for _ in range(4):
+        if isinstance(n, ast.IfExp):
+            return True
+        if isinstance(n, ast.Call) and ((isinstance(n.func, ast.Attribute) and n.func.attr == "Select") or (isinstance(n.func, ast.Name) and n.func.id == "Select")):
+            lam = next((a for a in n.args if isinstance(a, ast.Lambda)), None)
+            if lam is None:
+                return False
+            n = lam.body
+            continue
+        return False
+    return False
 
 
 def delivered_filename(ctx: Ctx) -> Dict[str, Optional[str]]:
